@@ -86,10 +86,11 @@ inductive NumRes where
   | flt (text : Bytes)
   | big (text : Bytes)
 
-/-- `AsNum` (non-arm64 branch), `AsNode` with `genNode := true` (differs in the integer test) -/
-def Num.asNum (n : Num) (genNode : Bool) : NumRes :=
+/-- `AsNum` (non-arm64 branch) and `AsNode`: same three cases, the results differ only in their Go
+types (`int64`/`float64`/`json.Number` vs `gen.Int`/`gen.Float`/`gen.Big`) -/
+def Num.asNum (n : Num) : NumRes :=
   if 0 < n.big.length then .big n.big
-  else if (if genNode then n.frac = 0 && n.exp = 0 else n.div = 1 && n.exp = 0) then
+  else if n.div = 1 && n.exp = 0 then
     .int (if n.neg then negInt64 (toInt64 n.i) else toInt64 n.i)
   else .flt n.fillBig.big
 
